@@ -1162,6 +1162,8 @@ class Frame(object):
             'tstart': self.mjd,
             'nchans': self.fchans,
             'fch1': self.fch1 * 1e-6,
+            # The frame's own name, also on a Waterfall that came from somewhere else
+            'source_name': self.source_name,
         }
         if self.ascending:
             header_attr['foff'] = self.df * 1e-6
